@@ -390,9 +390,10 @@ def run_peaks(case, out):
         out.fail("peaks:angles_" + ("components_permuted" if perm else ("of_another_list_row" if other else "not_in_list")), f"peak {v[i].tolist()}: {got_a[i].tolist()} vs row {idx[i]} {want[i].tolist()}")
         return
     out.check(bool(np.all(df["tomo_id"].to_numpy() == case["tomo_id"])), "peaks:tomo_id", "")
-    out.check(bool(np.all(df["object_id"].to_numpy() == (case["object_id"] if case["object_id"] is not None else 1))), "peaks:object_id", "")
-    out.check(bool(np.all(df["class"].to_numpy() == 1)), "peaks:class", "")
-    out.check(df["subtomo_id"].to_numpy(dtype=float).tolist() == [float(i) for i in range(1, len(df) + 1)], "peaks:subtomo_ids", "")
+    if case["object_id"] is not None:  # the documented parameter; the default numbering of objects and classes is not part of the statement
+        out.check(bool(np.all(df["object_id"].to_numpy() == case["object_id"])), "peaks:object_id", "")
+    sid_ = df["subtomo_id"].to_numpy(dtype=float)
+    out.check(len(set(sid_.tolist())) == len(sid_), "peaks:subtomo_ids_not_unique", "")
     out.nontrivial = len(v) >= 2 and len(sup) > len(v)
     if case["seed"] % 3 == 0 and not out.violations and case["list_as"] == "array":  # (the list file was rewritten above)
         # the same request with an output file: the same list, and the file holds it
